@@ -1,7 +1,7 @@
 (* C23 — ranges and iterable operations agree with a list model.
    Only statements here; proofs live in Proofs/C23_Iter.v. *)
 From Coq Require Import ZArith List Bool Lia.
-From Elk Require Import Base.GoSem Model.C23_Iter Proofs.C23_Iter.
+From Elk Require Import Base.GoSem Model.C23_Iter Proofs.C23_Iter Model.C23_Nil Proofs.C23_Nil.
 Import ListNotations.
 Open Scope Z_scope.
 
@@ -162,4 +162,46 @@ Example C23_nonvacuous_smallint_boundary :
     = Val (VList [9223372036854775806; 9223372036854775807; 9223372036854775808]) /\
   relements Closed (-9223372036854775809) (-9223372036854775807)
     = [-9223372036854775809; -9223372036854775808; -9223372036854775807].
+Proof. repeat split; vm_compute; reflexivity. Qed.
+
+(* ---- nilable elements (Int?): the extracted instance with element type option Z ---- *)
+
+(* the entry points the extracted driver runs for iterables of Int? (None = nil): every operation of
+   the instance returns what the list model returns on the yielded elements *)
+Theorem C23_ops_nilable_run : forall St (nx : St -> step elem St) fuel fuel' s l o,
+  unroll fuel nx s = Some (l, TStop) -> (fuel <= fuel')%nat ->
+  run_nimpl fuel' nx s o = run_nlist l o.
+Proof. exact run_nagree. Qed.
+Print Assumptions C23_ops_nilable_run.
+
+Theorem C23_ops_nilable_listiter : forall l o fuel, (length l < fuel)%nat -> run_nlistiter fuel l o = run_nlist l o.
+Proof. exact run_nlistiter_agree. Qed.
+Print Assumptions C23_ops_nilable_listiter.
+
+(* "the selected element is nil" and "no element was selected" are different results: first / last / find
+   RETURN nil when the first / last / first matching element is nil, and throw NotFoundError only on nothing *)
+Theorem C23_nil_element_is_not_absence : forall St (nx : St -> step elem St) fuel fuel' s l,
+  unroll fuel nx s = Some (l, TStop) -> (fuel <= fuel')%nat ->
+  (forall r, l = None :: r -> first_impl nx fuel' s = Val None) /\
+  (forall r, l = r ++ [None] -> last_impl nx fuel' s = Val None) /\
+  (forall p r r', l = r ++ None :: r' -> p None = Val true -> (forall v, In v r -> p v = Val false) ->
+     find_impl nx fuel' p s = Val None) /\
+  (l = [] -> first_impl nx fuel' s = Thrown E_NF /\ last_impl nx fuel' s = Thrown E_NF /\
+  forall p, find_impl nx fuel' p s = Thrown E_NF).
+Proof. exact nil_is_not_absent. Qed.
+Print Assumptions C23_nil_element_is_not_absence.
+
+Example C23_nonvacuous_nil_element :
+  run_nlistiter 50 [None; Some 1; Some 2] NFirst = Val (NVElem None) /\
+  run_nlistiter 50 [Some 1; Some 2; None] NLast = Val (NVElem None) /\
+  run_nlistiter 50 [Some 1; None; Some 2] (NFind NIsNil) = Val (NVElem None) /\
+  run_nlistiter 50 [Some 1; Some 2] (NFind NIsNil) = Thrown E_NF /\
+  run_nlistiter 50 [] NFirst = Thrown E_NF /\ run_nlistiter 50 [] NLast = Thrown E_NF /\
+  run_nlistiter 50 [None] NTryFirst = Val (NVOpt (Some None)) /\ run_nlistiter 50 [] NTryFirst = Val (NVOpt None) /\
+  run_nlistiter 50 [Some 0; None; Some 0] (NIndexOf None) = Val (NVInt 1) /\
+  run_nlistiter 50 [Some 0; None; Some 0] (NFilter NNotNil) = Val (NVList [Some 0; Some 0]) /\
+  run_nlistiter 50 [None; Some 1; Some 2] (NFold 0 10 7) = Val (NVInt 712) /\
+  run_nfailiter 50 [None; Some 1] NLast = Thrown E_BOOM /\
+  run_nfailiter 50 [None; Some 1] NFirst = Val (NVElem None) /\
+  run_nlistiter 50 [Some 1; None] (NAny (NThrowAt None (NEq 5))) = Thrown E_BOOM.
 Proof. repeat split; vm_compute; reflexivity. Qed.
